@@ -98,6 +98,14 @@ def corpus():
                 ('assign', 'y', ('expr', ('bin', '+', num(100), ('call', 'pick', [num(3)])))), P(v('y')),
                 ('repeat', ('in', [('light', ('str', 'Top')), ('light', ('str', 'Candle'))], 'L', None),
                  [('call', 'pick', [num(1)], False), P(v('L'))])])
+    # a macro defined AFTER a routine whose parameter / local has the same name: inside the routine
+    # the name stays the routine's own
+    out.append([('define', 'f', ['x'], [('assign', 'y', ('expr', ('bin', '+', v('x'), num(1)))), P(v('x')), P(v('y')),
+                                        ('return', ('expr', ('bin', '*', v('x'), num(2))))]),
+                P(('call', 'f', [num(7)])),
+                ('define_macro', 'x', num(5)), ('define_macro', 'y', num(6)),
+                P(('call', 'f', [num(7)])),
+                ('repeat', ('count', num(2)), [P(('call', 'f', [num(3)]))])])
     return [(prog, pop) for prog in out]
 
 
